@@ -12,7 +12,7 @@ import vlsir.circuit_pb2 as vckt
 # HDL
 from ..prefix import Prefix, Prefixed
 from ..module import Module
-from ..external_module import ExternalModule
+from ..external_module import ExternalModule, SpiceType
 from ..instance import Instance
 from ..signal import Signal, PortDir, Visibility
 from ..slice import Slice
@@ -87,6 +87,7 @@ class ProtoImporter:
             desc=pmod.desc,
             port_list=port_list,
             paramtype=dict,  # FIXME: should these be stored in the serialization schema?
+            spicetype=SpiceType.from_schema(pmod.spicetype),
         )
         # Give it a (non-initializer) value for its `importpath`
         emod._importpath = [pmod.name.domain]
@@ -392,14 +393,15 @@ def import_primitive_params(
     Returns the result as a dictionary of {name: value}s."""
 
     if target is Vpulse:
+        # Note each is optional, and is absent from `params` if it was not set on export.
         return dict(
-            v1=params["v1"],
-            v2=params["v2"],
-            delay=params["td"],
-            rise=params["tr"],
-            fall=params["tf"],
-            width=params["tpw"],
-            period=params["tper"],
+            v1=params.get("v1", None),
+            v2=params.get("v2", None),
+            delay=params.get("td", None),
+            rise=params.get("tr", None),
+            fall=params.get("tf", None),
+            width=params.get("tpw", None),
+            period=params.get("tper", None),
         )
 
     return params
